@@ -88,7 +88,8 @@ inline std::string step(Impl &im, Model &m, const Op &op, Labels &lab) {
         break;
     }
     case CONSUME: {
-        vp::Block dst(op.n);
+        // a request larger than anything unread must be refused before any access, so a small destination suffices for huge n
+        vp::Block dst(std::min<size_t>(op.n, m.size + 2));
         int rc = byte_buffer_consume(&im.b, dst.p, op.n);
         if (op.n <= m.rest()) {
             if (rc != 0) return tag("refused-although-data");
@@ -98,7 +99,7 @@ inline std::string step(Impl &im, Model &m, const Op &op, Labels &lab) {
         break;
     }
     case ATMOST: {
-        vp::Block dst(op.n);
+        vp::Block dst(std::min<size_t>(op.n, m.size + 2));
         ssize_t rc = byte_buffer_consume_at_most(&im.b, dst.p, op.n);
         if (m.rest() == 0) {
             if (rc >= 0) return tag("accepted-on-empty");
